@@ -10,6 +10,7 @@
 import EinoV.Model.C05
 import EinoV.Model.GraphBuild
 import EinoV.Proofs.C05
+import EinoV.Proofs.C05Resume
 import EinoV.Gen.FactsC06
 import EinoV.Expected.C06
 
@@ -21,13 +22,21 @@ open EinoV.Engine EinoV.Interrupt EinoV.Gen
 theorem facts_match :
     FactsC06.initialTasksChecked = Expected.C06.initialTasksChecked ∧
     FactsC06.loopTasksChecked = Expected.C06.loopTasksChecked ∧
+    FactsC06.createTasksForwardsStaleCP = Expected.C06.createTasksForwardsStaleCP ∧
     FactsC06.storeOnlyTopLevelWithID = Expected.C06.storeOnlyTopLevelWithID ∧
     FactsC06.extractUsesErrorsAs = true := by decide
 
-/-- the run as the source has it: whether the tasks computed from START are checked is the
-    extracted fact; the C05 fact (stale nested checkpoint) is irrelevant here and left arbitrary -/
-def srcCfg (fwdStale : Bool) : Cfg :=
-  { initialTasksChecked := FactsC06.initialTasksChecked, fwdStale := fwdStale }
+/-- the run as the source has it: both parameters of the model are extracted facts -/
+def srcCfg : Cfg :=
+  { initialTasksChecked := FactsC06.initialTasksChecked, fwdStale := FactsC06.createTasksForwardsStaleCP }
+
+theorem srcCfg_checked : srcCfg.initialTasksChecked = true := by
+  show FactsC06.initialTasksChecked = true
+  decide
+
+theorem srcCfg_fresh : srcCfg.fwdStale = false := by
+  show FactsC06.createTasksForwardsStaleCP = false
+  decide
 
 variable {V S X : Type}
 
@@ -38,24 +47,37 @@ variable {V S X : Type}
     had already been released once — in RerunNodes / as an interrupted nested graph).  In particular
     the first call (fresh input) never starts such a node: this needs the START-successor case, i.e.
     the source fact `initialTasksChecked`.  (`HistOK` / `GoodCall` are defined in Proofs/C05.lean.) -/
-theorem before_honoured (ops : ValOps V) (r : IRunner V S X) (sched : ISched V S X) (fwdStale : Bool)
+theorem before_honoured (ops : ValOps V) (r : IRunner V S X) (sched : ISched V S X)
     (calls : Nat) (x : V) :
-    HistOK r.intBefore none (resumeUntilDone ops (srcCfg fwdStale) r sched calls x) := by
-  apply resumeLoop_histOK ops (srcCfg fwdStale) r sched (by show FactsC06.initialTasksChecked = true; decide)
+    HistOK r.intBefore none (resumeUntilDone ops srcCfg r sched calls x) := by
+  apply resumeLoop_histOK ops srcCfg r sched srcCfg_checked
   intro cp h; cases h
 
 /-- the same, unfolded for one call: which supersteps may contain an interrupt-before node -/
-theorem before_honoured_call (ops : ValOps V) (r : IRunner V S X) (sched : ISched V S X) (fwdStale isSub hasID : Bool) :
+theorem before_honoured_call (ops : ValOps V) (r : IRunner V S X) (sched : ISched V S X) (isSub hasID : Bool) :
     -- a call on a fresh input submits no interrupt-before node at all
-    (∀ x, StepsAvoid r.intBefore (topSteps (runI ops (srcCfg fwdStale) r sched isSub hasID (.inl x)).evs)) ∧
+    (∀ x, StepsAvoid r.intBefore (topSteps (runI ops srcCfg r sched isSub hasID (.inl x)).evs)) ∧
     -- a resumed call submits them only in its first superstep, and only those its checkpoint restores
-    (∀ cp, StepsAvoid r.intBefore (topSteps (runI ops (srcCfg fwdStale) r sched isSub hasID (.inr cp)).evs).tail) ∧
+    (∀ cp, StepsAvoid r.intBefore (topSteps (runI ops srcCfg r sched isSub hasID (.inr cp)).evs).tail) ∧
     -- and what a checkpoint restores was reported by the interrupt that produced it
-    (∀ inp cp info, (runI ops (srcCfg fwdStale) r sched isSub hasID inp).res = .interrupted cp info →
+    (∀ inp cp info, (runI ops srcCfg r sched isSub hasID inp).res = .interrupted cp info →
         CPListed r.intBefore cp info) :=
-  ⟨fun x => runI_fresh_avoid ops _ r sched isSub hasID (by show FactsC06.initialTasksChecked = true; decide) x,
+  ⟨fun x => runI_fresh_avoid ops _ r sched isSub hasID srcCfg_checked x,
    fun cp => runI_later_steps_avoid ops _ r sched isSub hasID (.inr cp),
    fun inp cp info h => runI_intr_listed ops _ r sched isSub hasID inp cp info h⟩
+
+/-- **before_honoured_nested.** The statement above is about one graph level and the history of
+    calls made to it.  For a graph nested in a node, those calls are made by the parent's supersteps:
+    the nested run is *resumed* (handed its checkpoint) only when the parent restores that node from
+    its own checkpoint, i.e. in the first superstep of a resumed parent call; every later execution of
+    the node in the same parent call, and every execution in a parent call on a fresh input, starts
+    the nested graph from its input — so that the nested level's history is again of the shape
+    `before_honoured` speaks about (fresh call, or resume of the immediately preceding interrupt).
+    This is where the stale-checkpoint fact of C05 enters (`createTasksForwardsStaleCP = false`). -/
+theorem before_honoured_nested (ops : ValOps V) (r : IRunner V S X) (sched : ISched V S X) (isSub hasID : Bool) :
+    (∀ x, StepsFresh (topSteps (runI ops srcCfg r sched isSub hasID (.inl x)).evs)) ∧
+    (∀ cp, StepsFresh (topSteps (runI ops srcCfg r sched isSub hasID (.inr cp)).evs).tail) :=
+  runI_steps_fresh ops srcCfg r sched isSub hasID srcCfg_fresh
 
 /-- **before_honoured_partial** (what holds whichever way the source treats the tasks computed from
     START — kept next to the full statement): in every call only the first superstep can contain an
